@@ -16,7 +16,7 @@ def run(rep):
     rep.assumptions += kp.COMMON_ASSUMPTIONS
     res = base.run_obligations(rep, [(kernels.fajr_isha, 89.5), (kernels.shur_magh_adj, 89.5), (wiring.get_hours_wiring, None),
                                      (policy.policy_clauses, ("None", ["none"], "named")), (jd.jd_formula, (1600, 2399)),
-                                     (wiring.prayer_times_dt_wiring, False),
+                                     (wiring.prayer_times_dt_wiring, False), (policy.imsaak, None),
                                      (rounding.rounding, ("SpecialRounding", "Fajr", -50, 75, 1500)), (rounding.rounding, ("SpecialRounding", "Isha", -50, 75, 1500)),
                                      (rounding.rounding, ("SpecialRounding", "Shurooq", -50, 75, 1500))])
     if any(x["cands"] for x in res if x["name"].startswith("hour_to_time")):
@@ -28,7 +28,11 @@ def run(rep):
     if any(x["cands"] for x in res if x["name"].startswith("adj_for_ext_lat")):
         from . import policyprop as pp
         pp.confirm_kadj(rep, res, None)
-    kp.confirm(rep, [x for x in res if not x["name"].startswith(("JulianDay", "adj_for_ext_lat", "hour_to_time"))], WANT, 89.5)
+    if any((x["cands"] or x["inconclusive"]) for x in res if x.get("fn") == "imsaak"):
+        from . import policyprop as pp
+        if not pp.imsaak_grid(rep) and any(x["cands"] for x in res if x.get("fn") == "imsaak"):
+            rep.inconclusive.append("get_imsaak counterexample not reproduced through the public API")
+    kp.confirm(rep, [x for x in res if not x["name"].startswith(("JulianDay", "adj_for_ext_lat", "hour_to_time")) and x.get("fn") != "imsaak"], WANT, 89.5)
     rep.samples = [{"obligation": o["name"], "status": o["status"], "paths": o.get("paths"), "queries": o.get("queries")} for o in rep.obligations]
 
 
